@@ -263,6 +263,11 @@ DEFAULT_PROFILE: Dict[str, Any] = {
 RANGE_KEYS = ("steps", "n_vehicles", "n_stations", "n_bases", "n_requests")
 
 
+def _price(rnd: random.Random) -> float:
+    """a tariff entry; free charging (exactly 0.0) is an ordinary entry"""
+    return 0.0 if rnd.random() < 0.15 else round(rnd.uniform(0.0, 1.0), 3)
+
+
 def _pick(rnd: random.Random, v):
     if isinstance(v, tuple) and len(v) == 2 and all(isinstance(x, int) for x in v):
         return rnd.randint(v[0], v[1])
@@ -516,7 +521,7 @@ def random_spec(seed: int, profile: Optional[Dict[str, Any]] = None) -> Dict[str
                 if rnd.random() < 0.75:
                     for pl in s["plugs"]:
                         if rnd.random() < 0.8:
-                            rows.append([max(tt, 0), s["id"], pl["charger"], round(rnd.uniform(0.0, 1.0), 3)])
+                            rows.append([max(tt, 0), s["id"], pl["charger"], _price(rnd)])
             if rnd.random() < 0.3:
                 rows.append([max(tt, 0), "no_such_station", "DCFC", 9.0])
             if rnd.random() < 0.3 and stations:
@@ -536,7 +541,7 @@ def random_spec(seed: int, profile: Optional[Dict[str, Any]] = None) -> Dict[str
                     key = h3.h3_to_parent(h3.geo_to_h3(s["lat"], s["lon"], 15), res)
                     for pl in s["plugs"]:
                         if rnd.random() < 0.8:
-                            rows.append([max(tt, 0), key, pl["charger"], round(rnd.uniform(0.0, 1.0), 3)])
+                            rows.append([max(tt, 0), key, pl["charger"], _price(rnd)])
         rows.sort(key=lambda r: r[0])
         prices = {"by": "geoid", "rows": rows}
     lazy = P["lazy"] if P["lazy"] is not None else rnd.random() < 0.4
